@@ -37,7 +37,7 @@ EXPLANATION = (
     "never increases) connect the definitions; the static part is code == definition. NOT decided: inequalities in floating point."
 )
 # obligations added during the build phase (seeding rounds, twins, mutation analysis)
-ADDED_IN_BUILD = ' Also: (a) SPECIAL-CASE - an isinstance test of the arbitrary cost against one particular cost class is undecided on the abstract object (both arms explored); every composition an adapter singles out that way is decided with the built-in cost itself (its own fit / evaluate inlined) in every parameter mode; no such test on the pinned tree.'
+ADDED_IN_BUILD = ' Also: (a) SPECIAL-CASE - an isinstance test of the arbitrary cost against one particular cost class is undecided on the abstract object (both arms explored); every composition an adapter singles out that way is decided with the built-in cost itself (its own fit / evaluate inlined) in every parameter mode; no such test on the pinned tree. (b) adapters-multivariate: with a cost that returns one column per cut every adapter returns one column. (a) overwritten: entries of a score replaced by a constant after the defining difference was computed, selected by a test against an absolute number, are a violation (a sign clamp at zero is accepted).'
 EXPLANATION = EXPLANATION + ADDED_IN_BUILD
 
 ASSUMPTIONS = [
